@@ -171,6 +171,8 @@ func runC16(args []string) int {
 	// ---- part C: the pages an intact header refers to (free list, overwrite mapping) are damaged: the readers
 	// answer like the model (error, never a panic)
 	pagesK1(rep, m, r, nA/20, true)
+	// the older header stays usable: a commit never cuts the file below what the previous commit needs
+	truncateK1(rep, m, r, nA/2)
 
 	// ---- part A
 	for i := 0; i < nA; i++ {
